@@ -430,8 +430,8 @@ SCORES = ["-inf", "-1p0", "0p0", "1p-1", "1p0", "inf"]
 
 
 class C05(FamilyCfg):
-    lean = ["Props.C02idx", "Audit.C02idx", "Props.C05ref", "Audit.C05ref"]
-    audit = ["C02idx", "C05ref"]
+    lean = ["Props.C02idx", "Audit.C02idx", "Props.C02rules", "Audit.C02rules", "Props.C05ref", "Audit.C05ref"]
+    audit = ["C02idx", "C02rules", "C05ref"]
 
     def scripts(self, tier):
         mem = [EA, EB, EC, hx("d")]
